@@ -42,6 +42,8 @@ structure PS where
   useCache : Bool := false
   /-- number of store loads so far -/
   tick : Nat := 0
+  /-- number of calls of the layer function so far -/
+  ltick : Nat := 0
   deriving Repr
 
 /-- the `Mast` record; `id` is the ghost owner tag of the objects this tree allocates -/
@@ -59,6 +61,8 @@ structure Env where
   layer : Nat → Nat
   /-- the `t`-th load from the store fails -/
   failAt : Nat → Bool
+  /-- the `t`-th call of the layer function fails (the `Marshal` callback behind `DefaultLayer`) -/
+  layerFailAt : Nat → Bool := fun _ => false
 
 inductive Res (α : Type) where
   | ok (a : α) (s : PS)
@@ -143,6 +147,11 @@ def load (E : Env) : HLink → M Nat
   | .ptr a => pure a
   | .ref n => loadRef E n
   | .nil => failE
+
+/-- `m.keyLayer(key, branchFactor)`: a counted call that may fail -/
+def layerM (E : Env) (k : Nat) : M Nat := fun s =>
+  if E.layerFailAt s.ltick then .err { s with ltick := s.ltick + 1 }
+  else .ok (E.layer k) { s with ltick := s.ltick + 1 }
 
 def emptyNode (m : Nat) : MNode :=
   { keys := [], vals := [], links := [.nil], dirty := false, shared := false, owner := m, source := none }
@@ -287,7 +296,8 @@ structure InsPlan where
   right : HLink
 
 def insertPlan (E : Env) (t : PTree) (fuel key val : Nat) : M InsPlan := do
-  let target := min (E.layer key) t.height
+  let lay ← layerM E key
+  let target := min lay t.height
   let a0 ← (if t.root = .nil then alloc (emptyNode t.id) else load E t.root)
   let fd ← findNode E t.id key target true fuel a0 t.height []
   if fd.cur ≠ target then panicE
@@ -326,8 +336,9 @@ def extractLink (m : Nat) (nd : MNode) (frm to : Nat) : M HLink :=
 def growLoop (E : Env) (m height : Nat) (nd : MNode) :
     List (Nat × Nat) → Nat → Nat → List Nat → List Nat → List HLink → M (Nat × List Nat × List Nat × List HLink)
   | [], _, start, ks, vs, ls => pure (start, ks, vs, ls)
-  | (k, v) :: rest, i, start, ks, vs, ls =>
-    if E.layer k ≤ height then growLoop E m height nd rest (i + 1) start ks vs ls
+  | (k, v) :: rest, i, start, ks, vs, ls => do
+    let lay ← layerM E k
+    if lay ≤ height then growLoop E m height nd rest (i + 1) start ks vs ls
     else do
       let l ← extractLink m nd start i
       growLoop E m height nd rest (i + 1) (i + 1) (ks ++ [k]) (vs ++ [v]) (ls ++ [l])
@@ -346,6 +357,13 @@ def grow (E : Env) (t : PTree) : M PTree := do
     pure { t with root := .ptr na, height := t.height + 1, shrinkBelow := t.growAfter,
                   growAfter := t.growAfter * t.bf }
 
+/-- `canGrow` (lib.go:369-380): one layer call per key, up to the first key above the height -/
+def canGrowM (E : Env) (h : Nat) : List Nat → M Bool
+  | [] => pure false
+  | k :: ks => do
+    let lay ← layerM E k
+    if lay > h then pure true else canGrowM E h ks
+
 /-- the grow loop of `Insert` (pub.go:487-503); `size` is still the old size -/
 def growAll (E : Env) : Nat → PTree → M PTree
   | 0, _ => oofE
@@ -354,7 +372,8 @@ def growAll (E : Env) : Nat → PTree → M PTree
     else do
       let a ← load E t.root
       let nd ← read a
-      if nd.keys.any (fun k => E.layer k > t.height) then do
+      let cg ← canGrowM E t.height nd.keys
+      if cg then do
         let t' ← grow E t
         growAll E f t'
       else pure t
@@ -391,7 +410,8 @@ structure DelPlan where
 def deletePlan (E : Env) (t : PTree) (fuel key val : Nat) : M DelPlan := do
   if t.root = .nil then failE
   else do
-    let target := min (E.layer key) t.height
+    let lay ← layerM E key
+    let target := min lay t.height
     let a0 ← load E t.root
     let fd ← findNode E t.id key target false fuel a0 t.height []
     let nd ← read fd.node
@@ -629,7 +649,8 @@ def get (E : Env) (t : PTree) (fuel key : Nat) : M (Option Nat) :=
   if t.root = .nil then pure none
   else do
     let a ← load E t.root
-    let target := min (E.layer key) t.height
+    let lay ← layerM E key
+    let target := min lay t.height
     let fd ← findNode E t.id key target false fuel a t.height []
     let nd ← read fd.node
     if fd.idx ≥ nd.keys.length ∨ target ≠ fd.cur then pure none
